@@ -74,6 +74,9 @@ Layouts(streams) ==
        \cup {<<D(AllTo(streams, c)), [t |-> "index", n |-> 2], D(full)>> : c \in {0, 4, m \div 2}}
        \cup {<<[t |-> "ignored", len |-> 8], D(AllTo(streams, c)), [t |-> "ignored", len |-> 4], D(full), [t |-> "index", n |-> 1]>> : c \in {0, 5}}
        \cup {<<D(AllTo(streams, 0)), D(AllTo(streams, c)), D(AllTo(streams, c)), D(full)>> : c \in {3, m \div 2}}
+       \* non-data packets longer than a page: their body always straddles a page boundary
+       \cup {<<D(AllTo(streams, c)), [t |-> "ignored", len |-> 1100], D(full)>> : c \in {0, 4, m \div 2}}
+       \cup {<<D(AllTo(streams, c)), [t |-> "index", n |-> 70], D(AllTo(streams, c + 2)), [t |-> "ignored", len |-> 2048], D(full)>> : c \in {1, 6}}
 
 \* section starts: 48 and every 4-aligned logical offset that puts the section header, the first packet header or its
 \* stream table on, before or after the end of a page payload (1020)
